@@ -676,8 +676,13 @@ def _edges(ctx):
   return mod, fn, loop, blockvar, idxvar, blocks, pos, maps, edges
 
 
-def _guard_ok(e, blockvar, extra_allowed=()):
-  """Guards other than `<holder>.<attr>` truthiness / processed-block skip."""
+def _guard_ok(e, blockvar, extra_allowed=(), helper_names=None):
+  """Guards other than `<holder>.<attr>` truthiness / processed-block skip.
+
+  With `helper_names` (R16.5): tests that only inspect the *class* of the
+  instruction holding the target (flag helpers, isinstance, and/or/not of
+  those) are not unknown - they are evaluated per opcode class by
+  `_admits`."""
   unknown = []
   for t, p in e["guards"]:
     s = src(t)
@@ -689,8 +694,75 @@ def _guard_ok(e, blockvar, extra_allowed=()):
       continue  # `if block in processed_blocks: continue`
     if (s, p) in extra_allowed:
       continue
+    if helper_names is not None and e["kind"] == "target" and \
+        _is_class_test(t, e["holder"], helper_names):
+      continue
     unknown.append((s, p))
   return unknown
+
+
+def _is_class_test(t, holder, helper_names):
+  """`t` only inspects the class of `holder` (and the truth of its .target)."""
+  if isinstance(t, ast.BoolOp):
+    return all(_is_class_test(v, holder, helper_names) for v in t.values)
+  if isinstance(t, ast.UnaryOp) and isinstance(t.op, ast.Not):
+    return _is_class_test(t.operand, holder, helper_names)
+  if isinstance(t, ast.Attribute) and t.attr == "target" and src(t.value) == holder:
+    return True
+  if isinstance(t, ast.Call) and not t.keywords:
+    if isinstance(t.func, ast.Attribute) and not t.args and \
+        src(t.func.value) == holder and t.func.attr in helper_names:
+      return True
+    if dotted(t.func) == "isinstance" and len(t.args) == 2 and src(t.args[0]) == holder:
+      return True
+  return False
+
+
+def _class_test_value(ctx, mod, tab, helpers, t, holder, cname, oc):
+  """Truth of a class test for an instruction of class `oc` that carries a
+  target (AnalysisError when the classes of an isinstance are not understood)."""
+  if isinstance(t, ast.BoolOp):
+    vals = [_class_test_value(ctx, mod, tab, helpers, v, holder, cname, oc) for v in t.values]
+    return all(vals) if isinstance(t.op, ast.And) else any(vals)
+  if isinstance(t, ast.UnaryOp):
+    return not _class_test_value(ctx, mod, tab, helpers, t.operand, holder, cname, oc)
+  if isinstance(t, ast.Attribute):
+    return True  # <holder>.target: the instruction carries a target
+  if dotted(t.func) == "isinstance":
+    names = O.class_names(ctx, mod, t.args[1])
+    if names is None:
+      raise AnalysisError(f"{BLOCKS}: compute_order: classes of `{src(t)}` not understood")
+    return any(n.name in names for n in tab.chain(cname))
+  return bool(helpers[t.func.attr][0](oc.flags))
+
+
+def _target_classes(ctx, tab):
+  """Opcode classes whose instances carry a resolved .target: the classes with
+  a known-jump flag (R16.3: _add_jump_targets assigns .target exactly under
+  has_known_jump(); the synthetic SETUP_EXCEPT_311 gets it on creation), per
+  version, de-duplicated by (name, flags)."""
+  refs = _refs(ctx)
+  synthetic = {c for c in tab.opcode_classes
+               if any(isinstance(n, ast.Call) and isinstance(n.func, ast.Name)
+                      and n.func.id == c for n in ast.walk(tab.mod.tree))}
+  out = {}
+  for v in O.VERSIONS:
+    for name in sorted(set(refs[v]["num"]) | synthetic):
+      if name not in tab.opcode_classes:
+        continue
+      oc = tab.resolve(name, v)
+      if tab.known_jump(oc):
+        out.setdefault((name, oc.flags), (name, oc))
+  return [out[k] for k in sorted(out)]
+
+
+def _admits(ctx, mod, tab, helpers, e, cname, oc):
+  """Does the edge `e` fire for a target-carrying instruction of class `oc`?"""
+  for t, p in e["guards"]:
+    if _is_class_test(t, e["holder"], set(helpers)) and \
+        bool(_class_test_value(ctx, mod, tab, helpers, t, e["holder"], cname, oc)) != p:
+      return False
+  return True
 
 
 class _Closing:
@@ -848,7 +920,7 @@ def r16_4(ctx):
   for kind, where in (("target", "first"), ("target", "last"), ("block_target", "last")):
     hit = [e for e in edges if e["kind"] == kind and where in e["positions"]]
     for e in hit:
-      unknown = _guard_ok(e, blockvar)
+      unknown = _guard_ok(e, blockvar, helper_names=set(helpers))
       if unknown:
         raise AnalysisError(f"{BLOCKS}: compute_order: {where}.{kind} edge has "
                             f"guards outside the understood idiom: {unknown}")
@@ -949,28 +1021,52 @@ def r16_4(ctx):
 
 @rule("R16.5", "C16", floor=1)
 def r16_5(ctx):
-  """Every instruction position of a block contributes its .target edge."""
-  (mod, fn, loop, blockvar, idxvar, blocks, pos, maps, edges) = _edges(ctx)
-  covered = set()
+  """Every instruction that carries a .target contributes its edge, wherever
+  it sits in its block and whatever its jump-kind flags are."""
+  (view, fn, loop, blockvar, idxvar, blocks, pos, maps, edges) = _edges(ctx)
+  tab = O.opcode_table(ctx)
+  helpers = tab.helpers()
   tedges = [e for e in edges if e["kind"] == "target"]
   for e in tedges:
-    unknown = _guard_ok(e, blockvar)
+    unknown = _guard_ok(e, blockvar, helper_names=set(helpers))
     if unknown:
       raise AnalysisError(f"{BLOCKS}: compute_order: target edge at line "
                           f"{e['line']} has guards outside the understood "
                           f"idiom: {unknown}")
-    covered |= e["positions"]
-  missing = sorted({"first", "middle", "last"} - covered)
-  # Alternative discharge: the splitter closes the block *before* every
-  # instruction that can carry a target, so that none sits in the middle.
-  # (Not present in this code base; recognised shape: none.)
+  # Which positions can an instruction of a class occupy?  One whose flags
+  # close the block (same formula as R16.4) is always the last instruction of
+  # its block; any other one (the STORE_JUMP block setups) can be first, in
+  # the middle, or - when the next instruction is a jump target - last.
+  cp = closing_predicate(get_module(ctx, BLOCKS), set(helpers))
+  classes = _target_classes(ctx, tab)
+  if not classes:
+    raise AnalysisError(f"{OPC}: no opcode class with a known-jump flag")
+  missing = {}
+  floating = []
+  for cname, oc in classes:
+    fixed = {key: bool(helpers[h][0](oc.flags)) for h, key in cp.flags.items()}
+    closes = all(U.eval_formula(cp.formula, v)
+                 for v in U.assignments(list(cp.atoms), fixed))
+    if not closes:
+      floating.append(cname)
+    for where in (("last",) if closes else ("first", "middle", "last")):
+      if not any(where in e["positions"] and _admits(ctx, view.mod, tab, helpers, e, cname, oc)
+                 for e in tedges):
+        missing.setdefault(where, []).append(cname)
+  gaps = "; ".join(f"{w}: {', '.join(sorted(set(c)))}" for w, c in sorted(missing.items()))
   ctx.check(not missing, "compute_order:target-coverage", BLOCKS, loop.lineno,
-            "instructions that only store a jump (SETUP_EXCEPT_311, SETUP_FINALLY, "
-            "SETUP_WITH: STORE_JUMP) neither start nor end a block, so they can "
-            f"sit at the {'/'.join(missing)} position(s) of a block, whose "
-            ".target compute_order never reads: the handler block gets no edge, "
-            "is dropped by order_nodes as dead and its code is never analysed",
-            {"covered": sorted(covered), "edges": [src(e["call"]) for e in tedges]})
+            f"compute_order adds no .target edge for [{gaps}]: an "
+            "instruction that carries a resolved .target must contribute the "
+            "edge to it wherever it sits in its block and whatever its "
+            "jump-kind flags say (a STORE_JUMP block setup such as "
+            "SETUP_EXCEPT_311 neither starts nor ends a block, so it can be "
+            "the first, a middle or - when the next instruction is a jump "
+            "target - the last instruction); the handler block gets no "
+            "predecessor, is dropped by order_nodes as dead and its code is "
+            "never analysed",
+            {"target_classes": len(classes), "any_position": sorted(set(floating)),
+             "uncovered": {w: sorted(set(c)) for w, c in missing.items()},
+             "edges": [src(e["call"]) for e in tedges]})
 
 
 # -- R16.6 ------------------------------------------------------------------------
@@ -1488,6 +1584,41 @@ VARIANTS = [
          (BLOCKS, "    for op in block.code[1:-1]:", "    for op in block.code:")]},
     {"name": "twin-middle-loop-via-getitem", "rule": "R16.5", "file": BLOCKS, "expect": "silent",
      "old": "    for op in block.code[1:-1]:", "new": "    for op in block[1:-1]:"},
+    {"name": "seeded-C16-r3m1", "rule": "R16.5", "patch": "seeded/C16-r3m1/patch.diff",
+     "expect": "fire"},
+    # the same obligation broken by other class tests on the instruction
+    {"name": "last-target-edge-skips-store-jumps", "rule": "R16.5", "file": BLOCKS,
+     "expect": "fire", "old": "    if last_op.target:\n",
+     "new": "    if last_op.target and not last_op.store_jump():\n"},
+    {"name": "middle-target-edge-only-for-real-jumps", "rule": "R16.5", "file": BLOCKS,
+     "expect": "fire", "old": "      if op.target:\n",
+     "new": "      if op.target and op.does_jump():\n"},
+    {"name": "first-target-edge-only-for-old-setup-opcodes", "rule": "R16.5", "file": BLOCKS,
+     "expect": "fire", "old": "    if first_op.target:\n",
+     "new": "    if first_op.target and isinstance(first_op, (opcodes.SETUP_FINALLY, opcodes.SETUP_WITH)):\n"},
+    {"name": "last-target-edge-guard-clause-on-does-jump", "rule": "R16.5", "file": BLOCKS,
+     "expect": "fire",
+     "old": "    if last_op.target:\n      block.connect_outgoing(first_op_to_block[last_op.target])\n",
+     "new": "    if last_op.target:\n      if last_op.does_jump():\n"
+            "        block.connect_outgoing(first_op_to_block[last_op.target])\n"},
+    # class tests implied by `.target` being set / by the position are harmless
+    {"name": "twin-last-target-edge-redundant-known-jump-test", "rule": "R16.5", "file": BLOCKS,
+     "expect": "silent", "old": "    if last_op.target:\n",
+     "new": "    if last_op.has_known_jump() and last_op.target:\n"},
+    {"name": "twin-first-and-middle-edges-for-store-jumps-only", "rule": "R16.5",
+     "expect": "silent",
+     "edits": [(BLOCKS, "    if first_op.target:\n",
+                "    if first_op.target and first_op.store_jump():\n"),
+               (BLOCKS, "      if op.target:\n",
+                "      if op.store_jump() and op.target:\n")]},
+    {"name": "twin-two-edge-rules-prefix-loop-plus-last", "rule": "R16.5", "expect": "silent",
+     "edits": [
+         (BLOCKS, "    if first_op.target:\n      # Handles SETUP_EXCEPT -> except block\n"
+          "      block.connect_outgoing(first_op_to_block[first_op.target])\n", ""),
+         (BLOCKS, "    for op in block.code[1:-1]:", "    for op in block.code[:-1]:")]},
+    {"name": "target-edge-guard-not-a-class-test", "rule": "R16.5", "file": BLOCKS,
+     "expect": "error", "old": "    if last_op.target:\n",
+     "new": "    if last_op.target and last_op.index > 0:\n"},
     # -- R16.6
     {"name": "setup_with-does-not-push", "rule": "R16.6", "file": OPC, "expect": "fire",
      "old": "class SETUP_WITH(OpcodeWithArg):\n  _FLAGS = HAS_JREL | HAS_ARGUMENT | STORE_JUMP | PUSHES_BLOCK",
